@@ -198,14 +198,14 @@ impl TCheck for C13 {
     }
     fn works(&self, tier: Tier) -> u64 {
         match tier {
-            Tier::Quick => 120,
-            Tier::Thorough => 2000,
+            Tier::Quick => 360,
+            Tier::Thorough => 6000,
         }
     }
     fn scheds(&self, tier: Tier) -> u64 {
         match tier {
-            Tier::Quick => 24,
-            Tier::Thorough => 64,
+            Tier::Quick => 32,
+            Tier::Thorough => 128,
         }
     }
     fn prepare(&self, seed: u64, _tier: Tier, work: u64, scratch: &Path) -> Prepared {
